@@ -22,6 +22,7 @@ fn scenario(name: &str, body: crate::rt::Body, check: Check, bound: usize) -> Sc
         max_execs: 0,
         shards: 1,
         nontrivial: true,
+        unbounded: false,
     }
 }
 
